@@ -594,3 +594,39 @@ def random_inputs(draw) -> tuple[str, bytes]:
     else:
         total = draw(u16)
     return "random-body", bytes((6, 0x10, code >> 8, code & 0xFF, total >> 8, total & 0xFF)) + body
+
+
+# ---------------------------------------------------------------------------
+# surplus octets INSIDE the announced frame (C20, added after seeded change C20-5)
+
+SURPLUS_FIXED_FILLS = (b"\x00\x00\x00\x00", b"\x01\x02\x03\x04", b"\xff\xff\xff\xff")
+
+
+def surplus_variants(frame: bytes, fill: bytes = b"") -> Iterator[tuple[str, bytes, bytes, bool]]:
+    """Valid frame + k = 1..4 surplus octets behind a well-formed body.
+
+    Yields (mutation class, octets, surplus, inside): `inside` True = header total length
+    increased accordingly (the surplus belongs to the body the parser sees), False = total
+    length left unchanged (the surplus is stream data behind the frame)."""
+    fills = [bytes(fill[:4])] if fill else []
+    fills += [f for f in SURPLUS_FIXED_FILLS if f not in fills]
+    for f in fills:
+        for k in range(1, min(4, len(f)) + 1):
+            yield f"surplus:inside-announced:{k}", _with_len(frame + f[:k]), f[:k], True
+    for k in range(1, min(4, len(fills[0])) + 1):
+        yield f"surplus:behind-announced:{k}", frame + fills[0][:k], fills[0][:k], False
+
+
+_H0 = {"ip": "0.0.0.0", "port": 0, "proto": 1}
+_H1 = {"ip": "192.168.1.9", "port": 3671, "proto": 1}
+# deterministic structure variants that a small random sample may miss (run on every tier)
+CANONICAL_SPECS = (
+    {"cls": "ConnectRequest", "control": _H0, "data": _H0, "cri": {"type": TUNNEL_CONNECTION, "layer": 0x02, "ia": None}},
+    {"cls": "ConnectRequest", "control": _H1, "data": _H1, "cri": {"type": TUNNEL_CONNECTION, "layer": 0x02, "ia": 0x0007}},
+    {"cls": "ConnectRequest", "control": _H1, "data": _H0, "cri": {"type": TUNNEL_CONNECTION, "layer": 0x80, "ia": 0x1101}},
+    {"cls": "ConnectRequest", "control": _H1, "data": _H1, "cri": {"type": TUNNEL_CONNECTION, "layer": 0x04, "ia": 0xFFFF}},
+    {"cls": "ConnectRequest", "control": _H1, "data": _H1, "cri": {"type": 0x03}},
+    {"cls": "ConnectResponse", "ch": 1, "status": 0, "hpai": _H1, "crd": {"type": TUNNEL_CONNECTION, "ia": 0x0007}},
+    {"cls": "ConnectResponse", "ch": 255, "status": 0, "hpai": _H0, "crd": {"type": TUNNEL_CONNECTION, "ia": 0x1101}},
+    {"cls": "ConnectResponse", "ch": 1, "status": 0, "hpai": _H1, "crd": {"type": 0x03}},
+)
